@@ -22,7 +22,7 @@ PROPERTY = "C14"
 RUNS = {"quick": 900, "thorough": 40000}
 RUN_WALL_CAP = 240.0
 REQUIRED_PROBES = {"quick": ["other_container", "randomized_stage_ran", "exact_regime:k_ge_min_dim", "exact_regime:rank_one", "exact_regime:transpose_exact", "sdp_stage_k1", "sdp_stage_k2", "unequal_dims", "dim_scalar", "dim_omitted", "target_given", "non_hermitian", "projection", "own_upper_bound:dps2", "own_upper_bound:bilinear", "ppt_edge_operator", "two_operators_same_shape", "two_operators_k_ge_2", "target:just_below_attained", "structured_operator"], "thorough": ["randomized_stage_ran", "exact_regime:k_ge_min_dim", "exact_regime:rank_one", "exact_regime:transpose_exact", "sdp_stage_k1", "sdp_stage_k2", "unequal_dims", "dim_scalar", "dim_omitted", "target_given", "non_hermitian", "projection", "result_differs_between_rng_states", "own_upper_bound:dps2", "own_upper_bound:bilinear", "ppt_edge_operator", "two_operators_same_shape", "two_operators_k_ge_2", "target:just_below_attained", "structured_operator"]}
-COMPONENTS = {"real": ["toqito.matrix_props.sk_operator_norm incl. the randomised lower bound", "toqito.state_props.sk_vector_norm, schmidt_rank, schmidt_decomposition", "toqito.perms.swap / symmetric_projection", "toqito.channels.partial_trace / partial_transpose / realignment", "scipy.linalg.eigh, cvxpy + SCS/Clarabel"], "stub": ["numpy process-global legacy RNG state (set from the choice source; adversary draws between calls)"]}
+COMPONENTS = {"real": ["toqito.matrix_props.sk_operator_norm incl. the randomised lower bound", "toqito.state_props.sk_vector_norm, schmidt_rank, schmidt_decomposition", "toqito.perms.swap / symmetric_projection", "toqito.channels.partial_trace / partial_transpose / realignment", "scipy.linalg.eigh, cvxpy + SCS/Clarabel"], "stub": ["numpy process-global legacy RNG state (set from the choice source; adversary draws between calls; in a quarter of the calls reseed / advance / rewind writes injected at line boundaries of library code inside the call)"]}
 RULE = ("one run = one operator, or two operators of the same local dimensions and k used alternately (density / PSD / projection of seeded rank / rank one / indefinite Hermitian / non-Hermitian / diagonal / block-diagonal / normal-cone operators at PPT edge states / |p><q|+|q><p|; targets placed just below or above an attainable value; local dimensions 2..4, unequal allowed; k = 1..min dim; dim as list / scalar / omitted; effort 0..2; target set or not) "
         "evaluated under 2..4 global-RNG states with adversary draws in between; non-trivial = the randomised stage executed (global RNG state advanced by the call); distinct = distinct digest of (operator, k, options, RNG states)")
 SHRINK_ORDER = ["config", "operator", "rng", "intr"]
